@@ -1,5 +1,192 @@
-//! C04 — not implemented yet.
-fn main() {
-    eprintln!("C04: check not implemented");
-    std::process::exit(2);
+//! C04 — every scalar-multiplication path computes k·P.
+mod common;
+mod shipped;
+mod toyglv;
+mod toys;
+
+use ark_ec::short_weierstrass::{Projective as SwProj, SWCurveConfig};
+use ark_ec::twisted_edwards::{Projective as TeProj, TECurveConfig};
+use ark_ec::scalar_mul::glv::GLVConfig;
+use ark_ec::{CurveGroup, PrimeGroup};
+use ark_ff::PrimeField;
+use common::*;
+use num_bigint::BigUint;
+use std::sync::Arc;
+use vh_core::engine::{PropSpec, Rel, Tier};
+
+fn mix(a: u64, b: u64) -> u64 {
+    let mut z = a.wrapping_mul(0x9e3779b97f4a7c15) ^ b.wrapping_mul(0xbf58476d1ce4e5b9);
+    z ^= z >> 29;
+    z = z.wrapping_mul(0x94d049bb133111eb);
+    z ^ (z >> 32)
 }
+
+/// generic relations for one curve group
+fn group_rels<G: CurveGroup>(out: &mut Vec<Rel>, c: Arc<Ctx<G>>, tier: Tier, weight: u32, max_hint: usize) {
+    let q = |n: u32| (tier.pick(n, n * 15) * weight / 4).max(8);
+    let wmax = tier.pick(8u64, 12u64);
+    let cc = c.clone();
+    out.push(Rel::new(format!("plain/{}", c.name), q(400), 12 * c.n + 40, move |t, o| shipped::plain::<G>(&cc, t, o)).shrink_iters(400));
+    let cc = c.clone();
+    out.push(Rel::new(format!("wnaf/{}", c.name), q(240), 6 * c.n + 40, move |t, o| shipped::wnaf::<G>(&cc, wmax, t, o)).shrink_iters(400));
+    let cc = c.clone();
+    out.push(Rel::new(format!("batch/{}", c.name), q(48), 10 * c.n + 64, move |t, o| shipped::batch::<G>(&cc, max_hint, t, o)).shrink_iters(200));
+}
+
+fn glv_rel<P: GLVConfig>(out: &mut Vec<Rel>, c: Arc<Ctx<SwProj<P>>>, tier: Tier, weight: u32) {
+    let n = (tier.pick(320u32, 320 * 15) * weight / 4).max(8);
+    let cc = c.clone();
+    out.push(Rel::new(format!("glv/{}", c.name), n, 6 * c.n + 40, move |t, o| shipped::glv::<P>(&cc, t, o)).shrink_iters(400));
+}
+
+/// toy GLV curve: points are m·G with m read from the tape, so exact-mode tapes [m, k] enumerate everything
+fn toy_glv<P: GLVConfig>(out: &mut Vec<Rel>, name: &str, tier: Tier, exhaustive: bool)
+where
+    P::ScalarField: PrimeField,
+{
+    let r: BigUint = modulus_of::<P::ScalarField>();
+    let rr = r.to_u64_digits()[0];
+    let pts: PtFn<SwProj<P>> = Arc::new(move |t, _| {
+        let m = t.below(rr);
+        (ref_mul(&SwProj::<P>::generator(), &BigUint::from(m)), "P=m·G")
+    });
+    let c = Ctx::new(name, pts, false);
+    let cc = c.clone();
+    let mut rel = Rel::new(format!("glv/{}", name), tier.pick(2000, 20000), 4, move |t, o| shipped::glv::<P>(&cc, t, o));
+    if exhaustive {
+        rel = rel.exhaustive(move || Box::new((0..rr).flat_map(move |m| (0..rr).map(move |k| vec![m, k]))));
+    }
+    out.push(rel);
+    // the generic paths on the same curve (random cases only)
+    group_rels::<SwProj<P>>(out, c, tier, 8, 5000);
+}
+
+fn relations(tier: Tier) -> Vec<Rel> {
+    let mut out = Vec::new();
+    let thorough = tier == Tier::Thorough;
+
+    // ---- shipped curves -----------------------------------------------------------------------------
+    macro_rules! sw {
+        ($cfg:ty, $name:expr, $whole:expr, $weight:expr, $hint:expr) => {{
+            let c = Ctx::new($name, sw_pts::<$cfg>(), $whole);
+            group_rels::<SwProj<$cfg>>(&mut out, c, tier, $weight, $hint);
+        }};
+    }
+    macro_rules! sw_glv {
+        ($cfg:ty, $name:expr, $whole:expr, $weight:expr, $hint:expr) => {{
+            let c = Ctx::new($name, sw_pts::<$cfg>(), $whole);
+            glv_rel::<$cfg>(&mut out, c.clone(), tier, $weight);
+            group_rels::<SwProj<$cfg>>(&mut out, c, tier, $weight, $hint);
+        }};
+    }
+    macro_rules! te {
+        ($cfg:ty, $name:expr, $weight:expr, $hint:expr) => {{
+            let c = Ctx::new($name, te_pts::<$cfg>(), te_complete::<$cfg>());
+            group_rels::<TeProj<$cfg>>(&mut out, c, tier, $weight, $hint);
+        }};
+    }
+    // heavy ones first (relations are handed to 16 worker threads in this order)
+    // `whole` = plain double-and-add is the implementation of mul_bigint (no GLV override), so points outside
+    // the prime-order subgroup are legitimate inputs of the plain paths
+    sw_glv!(ark_bw6_761::g1::Config, "bw6_761.G1", true, 1, 300);
+    sw_glv!(ark_bw6_761::g2::Config, "bw6_761.G2", true, 1, 300);
+    sw_glv!(ark_bls12_381::g2::Config, "bls12_381.G2", true, 2, 300);
+    sw_glv!(ark_bls12_377::g2::Config, "bls12_377.G2", true, 2, 300);
+    sw_glv!(ark_bn254::g2::Config, "bn254.G2", true, 2, 300);
+    sw_glv!(ark_bls12_381::g1::Config, "bls12_381.G1", false, 4, 5000);
+    sw_glv!(ark_bls12_377::g1::Config, "bls12_377.G1", false, 4, 5000);
+    sw_glv!(ark_bn254::g1::Config, "bn254.G1", false, 4, 5000);
+    sw_glv!(ark_test_curves::bls12_381::g1::Config, "test.bls12_381.G1", false, 4, 5000);
+    sw_glv!(ark_pallas::PallasConfig, "pallas", true, 4, 5000);
+    sw_glv!(ark_vesta::VestaConfig, "vesta", true, 4, 5000);
+    sw!(ark_secp256k1::Config, "secp256k1", true, 4, 5000);
+    sw!(ark_secq256k1::Config, "secq256k1", true, 4, 5000);
+    sw!(ark_secp384r1::Config, "secp384r1", true, 2, 2048);
+    sw!(ark_grumpkin::GrumpkinConfig, "grumpkin", true, 4, 5000);
+    sw!(ark_mnt4_298::g1::Config, "mnt4_298.G1", true, 3, 5000);
+    sw!(ark_mnt6_298::g1::Config, "mnt6_298.G1", true, 3, 5000);
+    sw!(ark_ed_on_bls12_381::JubjubConfig, "ed_on_bls12_381.SW", true, 4, 5000);
+    sw!(ark_ed_on_bls12_381_bandersnatch::BandersnatchConfig, "bandersnatch.SW", true, 4, 5000);
+    te!(ark_ed_on_bls12_381::JubjubConfig, "ed_on_bls12_381.TE", 4, 5000);
+    te!(ark_ed_on_bls12_381_bandersnatch::BandersnatchConfig, "bandersnatch.TE", 4, 5000);
+    te!(ark_ed_on_bn254::EdwardsConfig, "ed_on_bn254.TE", 4, 5000);
+    te!(ark_ed25519::EdwardsConfig, "ed25519.TE", 4, 5000);
+    te!(ark_test_curves::ed_on_bls12_381::EdwardsConfig, "test.ed_on_bls12_381.TE", 4, 5000);
+
+    // ---- toy GLV curves -----------------------------------------------------------------------------
+    toy_glv::<toyglv::GlvP1>(&mut out, "toy.GlvP1", tier, true);
+    toy_glv::<toyglv::GlvH4>(&mut out, "toy.GlvH4", tier, true);
+    toy_glv::<toyglv::GlvH3>(&mut out, "toy.GlvH3", tier, true);
+    toy_glv::<toyglv::GlvBig>(&mut out, "toy.GlvBig", tier, thorough);
+
+    // ---- toy curves, exhaustive -----------------------------------------------------------------------
+    let wmax_toy = tier.pick(8usize, 12usize);
+    macro_rules! toy_sw {
+        ($cfg:ty, $name:expr, $p:expr, $a:expr, $b:expr, $h:expr, $r:expr, $big:expr) => {{
+            if !$big || thorough {
+                let c = Arc::new(toys::ToySw::<$cfg>::new($name, $p, $r, if $big { 8 } else { wmax_toy }, !$big));
+                let np = c.pts.len() as u64;
+                let r: u64 = $r;
+                let cc = c.clone();
+                out.push(
+                    Rel::new(format!("toy-paths/{}", $name), tier.pick(1500, 20000), 3, move |t, o| toys::sw_paths::<$cfg>(&cc, t, o))
+                        .exhaustive(move || Box::new((0..np).flat_map(move |i| (0..2 * r).map(move |k| vec![i, k, mix(i, k)])))),
+                );
+                let cc = c.clone();
+                let nh = toys::HINTS.len() as u64;
+                let ns = <$cfg as ark_ec::CurveConfig>::ScalarField::MODULUS_BIT_SIZE as u64 + 3;
+                out.push(
+                    Rel::new(format!("toy-batch/{}", $name), 0, 4, move |t, o| toys::sw_batch::<$cfg>(&cc, t, o)).exhaustive(move || {
+                        Box::new((0..np).flat_map(move |i| (0..nh).flat_map(move |h| (0..ns).map(move |s| vec![i, h, s, mix(i, h * 64 + s)]))))
+                    }),
+                );
+            }
+        }};
+    }
+    vh_core::for_each_toy_sw!(toy_sw);
+    macro_rules! toy_te {
+        ($cfg:ty, $name:expr, $p:expr, $a:expr, $d:expr, $h:expr, $r:expr, $complete:expr, $big:expr) => {{
+            if !$big || thorough {
+                let c = Arc::new(toys::ToyTe::<$cfg>::new($name, $p, $r, $complete, if $big { 8 } else { wmax_toy }, !$big));
+                let np = c.pts.len() as u64;
+                let nb = c.sub.iter().enumerate().filter(|(_, s)| $complete || **s).count() as u64;
+                let r: u64 = $r;
+                let cc = c.clone();
+                out.push(
+                    Rel::new(format!("toy-paths/{}", $name), tier.pick(1500, 20000), 3, move |t, o| toys::te_paths::<$cfg>(&cc, t, o))
+                        .exhaustive(move || Box::new((0..np).flat_map(move |i| (0..2 * r).map(move |k| vec![i, k, mix(i, k)])))),
+                );
+                let cc = c.clone();
+                let nh = toys::HINTS.len() as u64;
+                let ns = <$cfg as ark_ec::CurveConfig>::ScalarField::MODULUS_BIT_SIZE as u64 + 3;
+                out.push(
+                    Rel::new(format!("toy-batch/{}", $name), 0, 4, move |t, o| toys::te_batch::<$cfg>(&cc, t, o)).exhaustive(move || {
+                        Box::new((0..nb).flat_map(move |i| (0..nh).flat_map(move |h| (0..ns).map(move |s| vec![i, h, s, mix(i, h * 64 + s)]))))
+                    }),
+                );
+            }
+        }};
+    }
+    vh_core::for_each_toy_te!(toy_te);
+    out
+}
+
+#[allow(dead_code)]
+fn _bounds<P: SWCurveConfig, Q: TECurveConfig>() {}
+
+fn main() {
+    vh_core::engine::main(PropSpec {
+        id: "C04",
+        rule: "Toy curves (9 short-Weierstrass, 6 twisted-Edwards, 4 toy GLV curves): every point of the curve x every k < 2r through mul_bigint (affine/projective input, zero-padded limb slices), *, *=, mul_bits_be with leading false bits, wNAF for every window (fresh table, explicit table, longer table, too-short table => None), and every point x 7 table-size hints x every declared scalar size x all scalars through BatchMulPreprocessing / batch_mul, against the affine chord-and-tangent / Edwards-law oracle of vh_core::curve; toy GLV: every (k, P) of the subgroup. Shipped curves (11 GLV configurations + 13 others): points are identity, +-G, small and random multiples of G and (for paths that are plain double-and-add) points of the whole curve built from an arbitrary x / y; scalars are edge-biased (0, 1, 2, r-1, r-2, (r+-1)/2, r-small, 2^j, 2^j+-1, runs of ones, periodic bit patterns, small, uniform) and, for mul_bigint, raw limb slices >= r, = 2^(64N)-1, shorter than N, longer than N (zero padded and with non-zero high limbs); reference = right-to-left binary method over `+`/`double`. GLV: k = k1 + lambda k2 (mod r) with the returned signs, |k1|,|k2| <= sum of absolute basis entries, basis rows in the lattice with determinant r, endomorphism = [lambda]. A case is non-trivial when P is not the identity, k is not 0/1 and k reaches the top bit of r (or exceeds r) or has two adjacent one bits (its signed-digit recoding has a carry); distinct = distinct decoded choice sequences.",
+        assumptions: &[
+            "the group law (+, double, ==, into_affine) is correct on the inputs used (property C03); the toy oracle does not depend on it",
+            "accelerated paths (GLV, GLV-overridden mul_bigint, wNAF and batch tables on shipped curves) are only fed points of the prime-order subgroup, the group the types are documented to represent",
+            "BatchMulPreprocessing: declared scalar size >= 1 and no scalar wider than the declared size (documented meaning of max_scalar_size)",
+            "twisted-Edwards curves with an incomplete addition law: points outside the prime-order subgroup are only judged when the affine oracle meets no exceptional pair on the same addition chain",
+        ],
+        relations,
+    })
+}
+
+#[allow(dead_code)]
+fn _unused<G: PrimeGroup>() {}
